@@ -36,6 +36,9 @@ func runC17(c *fw.Case) {
 			blob = append(blob, byte(r.IntN(256)))
 		}
 	}
+	if c.ChanceAdded(1, 12, "c17.emptyblob") {
+		blob = nil // an index without chunks: only the empty file matches it
+	}
 	idx := mkIndex(blob, sz)
 	nchunks := len(idx.Chunks)
 	n := 1
@@ -84,8 +87,10 @@ func runC17(c *fw.Case) {
 	}
 	if len(blob) == 0 {
 		// only extension applies
-		verify([]byte{0}, "extended by 1 byte", false)
-		c.Outcome("ok")
+		c.Fault("extension")
+		if verify([]byte{0}, "extended by 1 byte", false) {
+			c.Outcome("ok")
+		}
 		return
 	}
 	// single byte changes
